@@ -908,4 +908,12 @@ MODELS[:0] = [
     (r'aarch64::vreinterpretq_u64_u8$', m_identity), (r'aarch64::vgetq_lane_u64', m_vgetq_lane_u64),
 ]
 
+# ---------------------------------------------------------------- allocator family (C19): reaching any of these is a failure
+def m_alloc(E, path, a):
+    raise Panic('alloc', 'heap allocation: call to ' + path)
+
+
+ALLOC_PATTERN = r"alloc::|__rust_alloc|(^|::|<)vec::|(^|::|<)Vec(::|<)|(^|::|<)String(::|<)|(^|::)string::|(^|::)boxed::|(^|::|<)Box(::|<)|collections::|to_vec$|to_owned$|to_string$|into_boxed|fmt::format$|::format$|(^|::)Rc(::|<)|(^|::)Arc(::|<)"
+MODELS.insert(0, (ALLOC_PATTERN, m_alloc))
+
 MODEL_NAMES = sorted(set(p for p, _ in MODELS))
